@@ -384,13 +384,15 @@ def check_c17(ctx):
     if ctx.replay:
         do_replay(ctx, mods, ["C17"])
     engine_check(ctx, mods,
-                 [("marks", 300, 6000), ("restart", 60, 1500)],
+                 [("marks", 300, 6000), ("restart", 60, 1500), ("marksfree", 60, 800)],
                  ["C17"],
                  "random histories over 2 topics in which 45% of the operations are mark_topic_clean / mark_topic_dirty / topic_is_clean / a forced "
                  "pass of the background persister (held otherwise, so the 'reopen immediately, before the persister ran' delay is the default), "
                  "interleaved with appends, batches (also rejected ones), reads, clean close+open in one process and process restarts; oracle: "
                  "every topic_is_clean answer equals what the latest returned append/mark call prescribes (clean for untouched topics), across "
-                 "any number of reopen events; non-trivial = distinct program that rotated a block, reopened or had a rejected operation",
+                 "any number of reopen events; profile `marksfree`: the persister runs on its own schedule while bursts of opposite marker changes hit the same "
+                 "topics (a change may land while the marker file is being written), then clean shutdown/restart and topic_is_clean of every topic; "
+                 "non-trivial = distinct program that rotated a block, reopened or had a rejected operation",
                  ENGINE_ASSUME + ["the persister thread is held by hook H3 and released only by the `persist` operation: every delay between the last "
                                   "call and the shutdown is represented by 'persister ran' / 'persister did not run'",
                                   "clean shutdown = the instance is dropped before the process ends (a killed process is C07/C09's crash model)"])
